@@ -166,8 +166,10 @@ def gen_facts():
         rc, out = sh([GENFACTS_BIN, "-repo", REPO, "-out", os.path.join(COQ, "gen"),
                       "-expected", os.path.join(COQ, "gen", "GenConsts.expected")],
                      env=GOENV, timeout=300)
+        cd = os.path.join(HARNESS, "bin", "classdump")
+        rc2, out2 = sh([cd, "-out", os.path.join(COQ, "gen")], env=GOENV, timeout=300)
     degraded = [l.split(" ", 1)[1] for l in out.splitlines() if l.startswith("DEGRADED ")]
-    return rc == 0, out, degraded
+    return rc == 0 and rc2 == 0, out + out2, degraded
 
 
 def coq_build():
